@@ -395,6 +395,13 @@ def check_case(seed, case_dict, avoid=()):
         old_env = {k: os.environ.get(k) for k in ('PICO8_LUA_PATH',)}
         os.environ.pop('PICO8_LUA_PATH', None)
         os.environ.update(env)
+        cwd0 = os.getcwd()
+        main_abs = main
+        if len(bytes(seed)) >= 8 and bytes(seed)[-8] % 4 == 2:
+            # the main file named the way a user standing in the project directory names it: `--lua main.lua`
+            os.chdir(os.path.dirname(main_abs))
+            main = os.path.basename(main_abs)
+            case['bare_main'] = True
         try:
             reach0, order0 = reachable(case)
             if order0 and bytes(seed)[-4] % 3 == 0:
@@ -421,6 +428,7 @@ def check_case(seed, case_dict, avoid=()):
             except Exception as e:
                 rc, err = None, e
         finally:
+            os.chdir(cwd0)
             for k, v in old_env.items():
                 if v is None:
                     os.environ.pop(k, None)
@@ -535,6 +543,8 @@ def part_graphs(ctx):
             labs.append('use_game_loop')
         if case.get('after_failed_build'):
             labs.append('after_failed_build_in_same_process')
+        if case.get('bare_main'):
+            labs.append('main_file_given_by_bare_relative_name')
         if any(getattr(f, 'harness', False) for f in case['files'].values()):
             labs.append('require_inside_stripped_game_loop')
         if any(b'/' in k and k.split(b'/')[0] in order for k in order):
@@ -634,6 +644,7 @@ def vacuity(total, tier):
                 'use_game_loop', 'site_stmt', 'site_local', 'site_in_function', 'load_default', 'load_abs_cli',
                 'load_abs_env', 'load_rel_dotdot', 'no_final_newline', 'error_missing_file', 'error_bad_option_value',
                 'one_file_two_names_different_option', 'after_failed_build_in_same_process',
+                'main_file_given_by_bare_relative_name',
                 'package_named_like_a_directory', 'require_inside_stripped_game_loop',
                 'paren_statement_after_stripped_function'):
         if total.classes.get(lab, 0) < 2:
